@@ -8,7 +8,7 @@ TEXT = {
                     "random programs every run.",
             "note": COMMON_NOTE + "utf8.Valid and sort.Slice are modelled (DFA table / insertion sort)."},
     "C12": {"text": "Theorems about the model of decoder.go (every initial byte, every head width, exact consumption, "
-                    "rejections) proved in Coq; model compared with the real decoder on all 256 initial bytes x follow "
+                    "rejections; every cut inside a consumed item is refused) proved in Coq; model compared with the real decoder on all 256 initial bytes x follow "
                     "classes x types and on item streams every run.",
             "note": COMMON_NOTE + "io.ReadFull/io.CopyN are modelled by their contract on an in-memory reader."},
 }
@@ -49,7 +49,7 @@ TEXT["C01"] = {
     "note": SXG_NOTE}
 TEXT["C02"] = {
     "text": "Theorems: write-then-read returns the canonical exchange, limits are enforced (no file that reads back "
-            "differently), verdict invariant under the round trip; model compared with the library on sign->write->read->"
+            "differently), verdict invariant under the round trip, a truncated file is refused or is the same exchange with a shorter payload; model compared with the library on sign->write->read->"
             "verify flows (versions x curves x record sizes x payload lengths), at every length-field boundary, on URIs and "
             "header maps the reader refuses, and with a property-level judge that compares the implementation's verdict before "
             "Write and after ReadExchange (known finding K2: b3 + stateful in-memory request header).",
@@ -69,7 +69,7 @@ TEXT["C09"] = {
 TEXT["C17"] = {
     "text": "Theorems: validated chains write and read back byte-for-byte (DER, OCSP, SCT), output is the canonical CBOR "
             "form [magic, {cert, ocsp?, sct?}...], invalid chains are refused in both directions, SCT list serialization "
-            "is exactly the RFC 6962 vector or an error at the 65535 limits; model compared with the library on generated "
+            "is exactly the RFC 6962 vector or an error at the 65535 limits, every strict prefix of a written chain is refused; model compared with the library on generated "
             "chains (real certificates incl. one above 65535 bytes), presence patterns, mutated and hand-built inputs.",
     "note": COMMON_NOTE + "x509.ParseCertificate is an oracle (per-input table from the standard library); premise raw(parse d) = d."}
 BUNDLE_NOTE = (COMMON_NOTE + "URLs are strings; url.Parse / URL.String() are a partial Gallina model (Model/UrlRef.v) validated against "
@@ -92,7 +92,7 @@ TEXT["C04"] = {
 TEXT["C05"] = {
     "text": "Theorems for ALL byte strings: the reader model never panics or diverges, every returned exchange is the "
             "bytes found at in-bounds, non-wrapping locations inside the responses section, unknown sections are stepped "
-            "over; model compared with bundle.Read on hand-assembled bundles with every length/offset/count field replaced "
+            "over, a truncated bundle is refused or read as the whole; model compared with bundle.Read on hand-assembled bundles with every length/offset/count field replaced "
             "by boundary values, sections reordered/duplicated/unknown/missing, truncation at every offset and bit flips.",
     "note": BUNDLE_NOTE}
 TEXT["C06"] = {
